@@ -57,18 +57,18 @@ func (s *scriptRand) Intn(n int) int {
 		return s.rng.Intn(n)
 	}
 }
-func (s *scriptRand) Uint32() uint32                  { return s.rng.Uint32() }
-func (s *scriptRand) Uint64() uint64                  { return s.rng.Uint64() }
+func (s *scriptRand) Uint32() uint32                    { return s.rng.Uint32() }
+func (s *scriptRand) Uint64() uint64                    { return s.rng.Uint64() }
 func (s *scriptRand) GenerateString(int, string) string { return "x" }
 
 type genUnderTest struct {
-	name    string
-	g       turn.RelayAddressGenerator
-	relayIP net.IP // nil: pass-through (advertises the real local address)
+	name     string
+	g        turn.RelayAddressGenerator
+	relayIP  net.IP // nil: pass-through (advertises the real local address)
 	min, max int
-	vnet    *simnet.VNet
-	rnd     *scriptRand
-	retries int
+	vnet     *simnet.VNet
+	rnd      *scriptRand
+	retries  int
 }
 
 func portOf(a net.Addr) (net.IP, int) {
